@@ -40,9 +40,12 @@ Step ==
                            (IF e.item < r.item THEN Flag("C10.ItemRepeated") ELSE Flag("C10.ItemSkippedOrForeign"))
                       ELSE IF r.out # "gone" /\ e.out # r.out THEN Flag("C10.WrongOutcome_" \o r.out \o "_got_" \o e.out)
                       ELSE bad
+       \* a fetch on a connection the environment had cut: it never reaches the server; the client must see a communication error
+       [] e.e = "BrokenNext" -> table' = table /\ bad' = IF e.out # "commerror" THEN Flag("C10.BrokenFetchNotACommunicationError_" \o e.out) ELSE bad
        [] e.e = "Close" -> table' = St!DoClose(table, e.i) /\ bad' = bad
        [] e.e = "Disconnect" -> table' = St!DoDisconnect(table, e.c, e.now, Cfg.linger) /\ bad' = bad
-       [] e.e = "Housekeep" -> table' = St!DoHousekeep(table, e.now, Cfg.lifetime, Cfg.linger) /\ bad' = bad
+       [] e.e = "Housekeep" -> /\ table' = St!DoHousekeep(table, e.now, Cfg.lifetime, Cfg.linger)
+                               /\ bad' = IF e.failed THEN Flag("C10.HousekeepingFailed") ELSE bad
        [] e.e = "End" -> /\ table' = table
                          /\ bad' = IF e.size # Cardinality(DOMAIN table) THEN
                                       (IF e.size > Cardinality(DOMAIN table) THEN Flag("C10.StreamNotForgotten") ELSE Flag("C10.StreamForgottenEarly"))
